@@ -3,18 +3,19 @@ from __future__ import annotations
 import json
 import math
 from fractions import Fraction
-from harness.core import Rng, gq, glist, Dec, num_close
+from harness.core import Rng, gq, gz, glist, Dec, num_close
 from harness.props import c01 as _c01
 
 PID = "C02"
 VO = ["theories/Metrics/Aggregates.vo", "theories/Metrics/Aggregates_proofs.vo", "theories/Base/Flat.vo"]
 PROPS_FILES = ["props/C02.v"]
-TRANSLATORS = ["t_ratio"]
+TRANSLATORS = ["t_ratio", "t_aggregates"]
 REQUIRES = ["From FL Require Import Num Flat Aggregates."]
 SHARD = 40
 CHUNK = 8
 CASE_TIMEOUT = 120
-PARTIAL = ["C02_ratio_between_le_one_partial", "C02_ratio_between_le_one_refuted"]
+PARTIAL = ["C02_ratio_between_le_one_partial", "C02_ratio_between_le_one_refuted",
+           "C02_coerce_nonscalar_is_nan_partial"]
 
 LEVEL_TEXT = ("Proof (Coq), per metric column and control level, on IEEE-like extended rationals with pandas' "
               "NaN-skipping min/max: difference(between_groups) = group_max - group_min; both differences >= 0; "
@@ -22,13 +23,23 @@ LEVEL_TEXT = ("Proof (Coq), per metric column and control level, on IEEE-like ex
               "ratio in [0,1] for non-negative cells (both methods); between <= 2 * to_overall; to_overall <= "
               "between when overall is a positive-weight mean of the non-empty groups; raise = coerce on scalar "
               "cells. 'ratio(between_groups) <= 1' is REFUTED for negative cells (min/max of -2,-1 is 2) and proved "
-              "for non-negative cells. Tie to the code: translator t_ratio + differential run of the same Gallina "
-              "definitions on the implementation's own by_group/overall tables in all 16 variants.")
-LEVEL_NOTE = ("Trusted: Coq kernel + vm_compute; translator t_ratio; pandas min/max/abs/division/unstack alignment "
+              "for non-negative cells. WHOLE TABLES (extension): apply_grouping / difference / ratio are regenerated "
+              "from the source by translator t_aggregates as functions over rows keyed by control level (python "
+              "cells: int / float / bool / non-scalar, the errors='coerce' filter, the grouping function, skipna, "
+              "the subtrahend choice, the min/max quotient, the fold) and stated equal to the model's definitions; "
+              "C02_per_control_level: every aggregate of the whole table is, level by level, the no-control "
+              "aggregate of that level's cells and of that level's OWN overall value (rows in any order: "
+              "C02_table_keyed); no control features = one level; the column functions equal the per-level model on "
+              "scalar cells; under 'coerce' a non-scalar cell counts as NaN (partial: ratio(to_overall) is not "
+              "filtered by the source). Tie to the code: translators t_ratio + t_aggregates + differential run of the "
+              "same Gallina definitions (per level AND whole table with key lookup) on the implementation's own "
+              "by_group/overall tables in all 16 variants.")
+LEVEL_NOTE = ("Trusted: Coq kernel + vm_compute; translators t_ratio, t_aggregates (the mapping pandas method -> table "
+              "primitive, e.g. groupby(level=control)/unstack/index alignment -> key lookup); pandas min/max/abs/division/unstack alignment "
               "are modelled (tied by correspondence), not verified; non-scalar cells are outside the model "
               "(coerce = NaN is modelled, raise on non-scalars is not).")
 TECHNIQUE = "Coq proof about an executable model of the aggregates + source-regenerated fold + differential run"
-TRUSTED = ["Coq 8.16.1 kernel and vm_compute", "translators/t_ratio.py", "harness/props/c02.py, c01.py (generators, "
+TRUSTED = ["Coq 8.16.1 kernel and vm_compute", "translators/t_ratio.py", "translators/t_aggregates.py", "harness/props/c02.py, c01.py (generators, "
            "metric callables, comparison)", "pandas Series/DataFrame min, max, abs, division, group-by on index levels "
            "(modelled)", "no axioms (Print Assumptions: closed)"]
 ASSUMPTIONS = ["cells are scalar floats (finite or NaN); by_group and overall are taken from the implementation "
@@ -38,11 +49,16 @@ RULE = ("cases: datasets as in C01 (n 1..12, 1..3 sensitive, 0..2 control column
         "metrics (count, weighted selection rate, weighted accuracy, a signed weighted mean), degenerate patterns "
         "forced (all-equal groups, zero overall, zero group values); each case evaluates group_min/group_max x "
         "errors and difference/ratio x method x errors; inequalities are checked on the implementation's numbers; "
-        "one dedicated negative-metric case (known finding). non-trivial = at least two non-empty groups in "
+        "one dedicated negative-metric case (known finding); three extra streams: integer-valued frames (only "
+        "count-like metrics, cells arrive as ints, zero counts), dicts of >= 2 metrics where one metric's ratio to "
+        "overall is NaN for a non-empty group (0/0, or the metric itself returns NaN) while another metric's is "
+        "finite, zero-valued group cells inside a control level. non-trivial = at least two non-empty groups in "
         "some control level and not all of them equal")
 EXHAUSTIVE = {"quick": False, "thorough": False}
 
 KINDS = ["cnt", "sr", "acc", "sgn"]
+COUNTS = ["cnt", "npos", "nerr"]         # integer-valued: the cells arrive as python / numpy ints
+EXTRA_N = {"quick": 60, "thorough": 600}  # cases per extra stream
 MEANS = {"sr", "acc", "sgn"}
 NEG_SIG = "C02/MetricFrame/ratio-between_groups/exceeds-one-for-negative-metric"
 METHODS = ["between_groups", "to_overall"]
@@ -88,16 +104,109 @@ def _negative_case():
             "metrics": [{"name": "sgn", "kind": "sgn", "params": []}]}
 
 
+def _force_cf(r, c):
+    if not c["cf"]:
+        c["cf"] = [_c01._feat(r, c["n"], True)]
+        c["cf_container"] = _c01._container(r, 1, c["n"])
+        c["cf_names"] = ["cA"]
+
+
+def _int_case(r):
+    """integer-valued frame: every metric count-like, so by_group is an int64 frame unless an intersection is empty"""
+    c = _c01._random_case(r)
+    n = c["n"]
+    if r.chance(1, 2):          # one sensitive column, no control: no empty intersection, the cells stay ints
+        c["sf"], c["sf_names"] = c["sf"][:1], c["sf_names"][:1]
+        c["sf_container"] = _c01._container(r, 1, n)
+        c["cf"], c["cf_names"], c["cf_container"] = [], [], None
+    c["callable"] = r.chance(1, 3)
+    ks = [r.choice(COUNTS)] if c["callable"] else r.sample(COUNTS, r.randint(1, 3))
+    c["metrics"] = [{"name": k, "kind": k, "params": []} for k in ks]
+    c["pattern"] = r.choice(["int", "int", "int_all0", "int_by_group"])
+    if c["pattern"] == "int_all0":
+        c["y_pred"] = [0] * n
+    elif c["pattern"] == "int_by_group":
+        c["y_pred"] = [code % 2 for code in c["sf"][0]["codes"]]
+    return c
+
+
+def _nanratio_case(r):
+    """dict of >= 2 metrics; ONE metric's ratio to overall is NaN for a non-empty group (0/0 or a NaN cell)"""
+    c = _c01._random_case(r)
+    n = c["n"]
+    c["callable"] = False
+    bad = r.choice(["npos", "sr", "prec", "prec"])
+    good = r.sample(["cnt", "acc", "nerr"], r.randint(1, 2))
+    ks = [bad] + good
+    if r.chance(1, 2):
+        ks.reverse()
+    c["metrics"] = [_metric(r, n, k, k) if k in ("sr", "acc") else {"name": k, "kind": k, "params": []} for k in ks]
+    mode = r.choice(["level0", "group0", "all0"])
+    if mode == "level0":        # no positive prediction inside control level 0: overall 0 there, 0/0 for its groups
+        _force_cf(r, c)
+        c["y_pred"] = [0 if c["cf"][0]["codes"][i] == 0 else c["y_pred"][i] for i in range(n)]
+    elif mode == "group0":      # no positive prediction in the groups with first sensitive code 0
+        c["y_pred"] = [0 if c["sf"][0]["codes"][i] == 0 else 1 for i in range(n)]
+    else:
+        c["y_pred"] = [0] * n
+    c["pattern"] = "nanratio_" + mode
+    return c
+
+
+def _zerolevel_case(r):
+    """zero-valued group cells inside a control level (errors='coerce' must keep a 0 a 0)"""
+    c = _c01._random_case(r)
+    n = c["n"]
+    _force_cf(r, c)
+    c["callable"] = r.chance(1, 3)
+    if c["callable"]:
+        k = r.choice(["sr", "npos", "nerr", "acc"])
+        ks = [k]
+    else:
+        ks = r.sample(["sr", "npos", "nerr", "acc", "cnt", "sgn"], r.randint(1, 3))
+    c["metrics"] = [_metric(r, n, k, k) if k in ("sr", "acc", "sgn") else {"name": k, "kind": k, "params": []}
+                    for k in ks]
+    z = r.randint(0, 1)
+    c["y_pred"] = [0 if c["sf"][0]["codes"][i] % 2 == z else c["y_pred"][i] for i in range(n)]
+    if r.chance(1, 2):          # and no error there either: accuracy 1 / error count 0
+        c["label"] = [c["y_pred"][i] if c["sf"][0]["codes"][i] % 2 == z else c["label"][i] for i in range(n)]
+    c["pattern"] = "zero_in_level"
+    return c
+
+
 def cases(tier, seed):
     out = [_negative_case()]
     for i in range({"quick": 300, "thorough": 3000}[tier]):
         out.append(_random_case(Rng(seed, PID, "rand", i)))
+    for stream, gen in (("int", _int_case), ("nanratio", _nanratio_case), ("zerolevel", _zerolevel_case)):
+        for i in range(EXTRA_N[tier]):
+            out.append(gen(Rng(seed, PID, stream, i)))
     return out
 
 
 def _make_metric(kind, name):
     import numpy as np
+    if kind == "npos":          # number of positive predictions: a python int, zero for some groups
+        def f(y_true, y_pred, **kw):
+            return int(np.sum(np.asarray(y_pred) == 1))
+        f.__name__ = name
+        return f
+    if kind == "nerr":          # number of errors: a numpy integer
+        def f(y_true, y_pred, **kw):
+            return np.sum((np.asarray(y_true) % 2) != np.asarray(y_pred))
+        f.__name__ = name
+        return f
+    if kind == "prec":          # precision; NaN (returned by the metric itself) without positive predictions
+        def f(y_true, y_pred, **kw):
+            yp = np.asarray(y_pred) == 1
+            pp = int(np.sum(yp))
+            if pp == 0:
+                return float("nan")
+            return float(np.sum(yp & ((np.asarray(y_true) % 2) == 1)) / pp)
+        f.__name__ = name
+        return f
     if kind != "sgn":
+        assert kind in ("cnt", "sr", "acc"), kind
         return _c01._make_metric(kind, name)
 
     def f(y_true, y_pred, **kw):
@@ -121,6 +230,17 @@ def _num(v):
             return "inf" if f > 0 else "-inf"
         return f
     return ["other", repr(v)]
+
+
+def _pykind(v):
+    import numpy as np
+    if isinstance(v, (bool, np.bool_)):
+        return "b"
+    if isinstance(v, (int, np.integer)):
+        return "i"
+    if isinstance(v, (float, np.floating)):
+        return "f"
+    return "o"
 
 
 def _table(obj, names, alphas, has_cf, callable_):
@@ -162,6 +282,7 @@ def impl(case):
         bg = bg.to_frame(name=names[0])
     res = {"by_group": {str(c): [[_c01._key(idx, galph), _num(bg[c][idx])] for idx in bg.index] for c in bg.columns},
            "overall": _table(mf.overall, names, calph, has_cf, cal), "agg": {}}
+    res["by_group_kind"] = {str(c): [_pykind(bg[c][idx]) for idx in bg.index] for c in bg.columns}
 
     def run(label, thunk):
         try:
@@ -202,14 +323,38 @@ def _scalar_tables(case, out):
         all(not isinstance(v, list) for nm in out["overall"] for _, v in out["overall"][nm])
 
 
+def _gpy(v, kind):
+    """python cell literal: ints stay ints (PyInt), everything else numeric is a float"""
+    if kind == "i" and not isinstance(v, str) and float(v) == int(v):
+        return f"(PyInt {gz(int(v))})"
+    if kind == "b" and not isinstance(v, str):
+        return f"(PyBool {'true' if v else 'false'})"
+    return f"(PyFloat {_gext(v)})"
+
+
+def _gkey(k):
+    return glist(k, gz)
+
+
 def term(case, out):
     if out is None or not _scalar_tables(case, out):
         return None
+    ncf = len(case["cf"])
     parts = []
     for m in case["metrics"]:
-        lv = _levels(case, out, m["name"])
+        nm = m["name"]
+        lv = _levels(case, out, nm)
         parts.append("run_aggregates " + glist([f"({glist([_gext(c) for c in cells])}, {_gext(ov)})"
                                                 for _, cells, ov in lv]))
+        # the whole tables, rows in the implementation's order, pairing left to the model's key lookup
+        kinds = out["by_group_kind"][nm]
+        if ncf:
+            rows = glist([f"({_gkey(k[:ncf])}, {_gpy(v, kd)})" for (k, v), kd in zip(out["by_group"][nm], kinds)])
+            ovt = glist([f"({_gkey(k)}, {_gext(v)})" for k, v in out["overall"][nm]])
+            parts.append(f"run_table {rows} {ovt}")
+        else:
+            cells = glist([_gpy(v, kd) for (_, v), kd in zip(out["by_group"][nm], kinds)])
+            parts.append(f"run_column {cells} {_gext(out['overall'][nm][0][1])}")
     return " ++ ".join(parts)
 
 
@@ -220,9 +365,17 @@ AGG_ORDER = ["group_min", "group_max", "difference/between_groups", "difference/
 def decode(case, zs):
     d = Dec(zs)
     res = {}
+    ncf = len(case["cf"])
+    table = {}
     for m in case["metrics"]:
         res[m["name"]] = d.list(lambda: {e: {a: d.ext() for a in AGG_ORDER} for e in ERRORS})
+        if ncf:
+            per_err = d.list(lambda: d.list(lambda: (list(d.key()), {a: d.ext() for a in AGG_ORDER})))
+        else:
+            per_err = d.list(lambda: [([], {a: d.ext() for a in AGG_ORDER})])
+        table[m["name"]] = {e: t for e, t in zip(ERRORS, per_err)}
     d.done()
+    res["__table__"] = table
     return res
 
 
@@ -272,6 +425,23 @@ def compare(case, out, model):
                                       f"{label} metric {nm} control {ckey}: implementation {hit[0]} model {mv} "
                                       f"(cells {cells}, overall {ov})",
                                       f"{a} equals Aggregates.{a.split('/')[0]}", "property"))
+            # ---- the whole-table model (regenerated functions, key lookup) at this control key ----
+            if model is not None:
+                for e in ERRORS:
+                    trows = [r for k, r in model["__table__"][nm][e] if k == ckey]
+                    if len(trows) != 1:
+                        v.append((f"{PID}/MetricFrame/table/control-level-missing-in-table-model",
+                                  f"metric {nm} errors={e}: control key {ckey} occurs {len(trows)} times in the model "
+                                  f"table", "one record per control level", "correspondence"))
+                        continue
+                    for a in AGG_ORDER:
+                        if (a, e) in got and not isinstance(got[(a, e)], list) \
+                                and not num_close(_f(got[(a, e)]), trows[0][a]):
+                            v.append((f"{PID}/MetricFrame/{a.replace('/', '-')}/differs-from-table-model",
+                                      f"{a}/{e} metric {nm} control {ckey}: implementation {got[(a, e)]} whole-table "
+                                      f"model {trows[0][a]} (cells {cells}, overall {ov})",
+                                      f"{a} of the whole table equals Aggregates.mf_... at this control key",
+                                      "property"))
             # ---- property oracles on the implementation's own numbers ----
             for e in ERRORS:
                 g = {a: _f(got[(a, e)]) for a in AGG_ORDER if (a, e) in got and not isinstance(got[(a, e)], list)}
@@ -310,6 +480,23 @@ def compare(case, out, model):
     return v
 
 
+def _nan_ratio_rows(case, out, name):
+    """(row index) of non-empty groups whose ratio to their level's overall is NaN / finite"""
+    ncf = len(case["cf"])
+    sizes = _c01._groups(case)
+    ov = {tuple(k): v for k, v in out["overall"][name]}
+    nan_rows, fin_rows = set(), set()
+    for i, (k, v) in enumerate(out["by_group"][name]):
+        if tuple(k) not in sizes:
+            continue
+        o = ov.get(tuple(k[:ncf]))
+        if v == "nan" or o == "nan" or (v == 0.0 and o == 0.0):
+            nan_rows.add(i)
+        elif not isinstance(v, str) and not isinstance(o, str) and o != 0.0:
+            fin_rows.add(i)
+    return nan_rows, fin_rows
+
+
 def tags(case, out, model):
     t = [f"kind:{case['kind']}", f"pattern:{case['pattern']}", f"sf:{len(case['sf'])}", f"cf:{len(case['cf'])}",
          "callable" if case["callable"] else f"dict:{len(case['metrics'])}"]
@@ -324,6 +511,17 @@ def tags(case, out, model):
                 zero_cell |= any(c == 0.0 for c in fin)
                 alleq |= len(fin) >= 2 and len(set(fin)) == 1
         t += [f"zero-overall:{zero_ov}", f"nan-cell:{nan_cell}", f"zero-cell:{zero_cell}", f"all-equal-groups:{alleq}"]
+        kinds = out.get("by_group_kind", {})
+        t.append(f"int-cells:{any('i' in ks for ks in kinds.values())}")
+        t.append(f"all-int-frame:{bool(kinds) and all(set(ks) == {'i'} for ks in kinds.values())}")
+        sizes = _c01._groups(case)
+        t.append("metric-returns-nan-for-nonempty-group:" + str(any(
+            v == "nan" and tuple(k) in sizes for nm in out["by_group"] for k, v in out["by_group"][nm])))
+        t.append("zero-cell-inside-control-level:" + str(bool(case["cf"]) and any(
+            v == 0.0 for nm in out["by_group"] for _, v in out["by_group"][nm])))
+        rr = {m["name"]: _nan_ratio_rows(case, out, m["name"]) for m in case["metrics"]}
+        t.append("one-metric-nan-ratio-others-finite:" + str(any(
+            rr[a][0] & rr[b][1] for a in rr for b in rr if a != b)))
     return t
 
 
